@@ -159,6 +159,8 @@ Next ==
            ELSE IF cfg.carrier = "tumbling" /\ nout = 0 /\ Len(rows) > cfg.n THEN Reject("missing_delivery")
            ELSE UNCHANGED dead
         /\ UNCHANGED <<cfg, rows, buf, exp, nout, used>>
+     ELSE IF e.e = "void" THEN      \* the driver could not keep its own real-time schedule: this trace decides nothing
+        /\ dead' = TRUE /\ UNCHANGED <<cfg, rows, buf, exp, nout, used>>
      ELSE IF e.e \in {"execerr", "panic"} THEN
         Reject("engine_" \o e.e) /\ UNCHANGED <<cfg, rows, buf, exp, nout, used>>
      ELSE UNCHANGED <<cfg, rows, buf, exp, nout, dead, used>>
